@@ -155,7 +155,7 @@ TSetupThrew == IsEvent("SetupThrew") /\ Step /\ UNCHANGED <<tab, v, st, fm, star
 TSolveThrew == IsEvent("SolveThrew") /\ Step /\ UNCHANGED <<tab, v, st, fm, start>>
 TSolveEnter == /\ IsEvent("SolveEnter") /\ Step /\ fm' = 0 /\ start' = NoStart
                /\ st' = [st EXCEPT !.nu1 = Tr[l].nu1, !.nu2 = Tr[l].nu2, !.its = Tr[l].fmgIts, !.fkind = KindName(Tr[l].fmgKind),
-                                    !.kind = KindName(Tr[l].kind), !.ext = Tr[l].extMode # 0, !.fmg = Tr[l].fmg # 0, !.xsFmg = (Tr[l].fgs = 0)]
+                                    !.kind = KindName(Tr[l].kind), !.ext = Tr[l].extMode # 0, !.fmg = Tr[l].fmg # 0, !.xsFmg = (Tr[l].fgs = 0 /\ Tr[l].extMode # 3)]
                \* the start-up begins from right-hand sides only: every other vector is stale (also the finest iterate)
                /\ LET f == Fresh([i \in Ids |-> IF HasRhs(i) THEN <<"F", Lev(i)>> ELSE StaleLeaf(i)]) IN tab' = f.t /\ v' = f.v
 TInitZero == IsEvent("InitZero") /\ Step /\ ~st.fmg /\ tab[v[Vid(0, 0)]] = <<"Zero">> /\ UNCHANGED <<tab, v, st, fm, start>>
